@@ -2312,6 +2312,11 @@ func enumFields(yield func(MutCase) bool) {
 				seen := map[string]bool{}
 				cands := append([]string{a.s.Value}, harvestField[f]...)
 				vals = append([]string{}, vals...)
+				// every value the library itself defines for this field (document
+				// types, rounding rules, note / means / terms keys): each must be in
+				// the published enumeration too
+				loadPools()
+				vals = append(vals, fieldKeys[f]...)
 				for _, hv := range cands {
 					if hv == "" || seen[hv] || len(seen) >= 8 {
 						continue
